@@ -416,10 +416,10 @@ func (m *c19Mach) exec(x *c19Ctx, opClass, opDesc string, f func()) (clean bool)
 			kind = c19RegName[mm.region] + "-changed"
 		}
 		c.Violation(m.drv+":"+opClass+":"+kind, map[string]interface{}{
-			"input": m.describe(opDesc),
-			"first": fmt.Sprintf("%s holds %#02x, allowed: %s", m.mdl.where(mm.first), mm.got, mm.want),
+			"input":                     m.describe(opDesc),
+			"first":                     fmt.Sprintf("%s holds %#02x, allowed: %s", m.mdl.where(mm.first), mm.got, mm.want),
 			"bytes_outside_allowed_set": mm.count,
-			"by_region": fmt.Sprintf("cell=%d logo=%d remainder=%d padding=%d", mm.perClass[0], mm.perClass[1], mm.perClass[2], mm.perClass[3])})
+			"by_region":                 fmt.Sprintf("cell=%d logo=%d remainder=%d padding=%d", mm.perClass[0], mm.perClass[1], mm.perClass[2], mm.perClass[3])})
 	}
 	return clean
 }
@@ -613,7 +613,7 @@ func c19SpecDesc(s c19Spec) map[string]interface{} {
 func TestVerifC19(t *testing.T) {
 	run := vlib.Start(t, "C19")
 	defer run.Finish()
-	run.SetRule("case = one console (3 of 4: VesaFbConsole with depth in {8,15,16,24,32}, shipped or synthetic 8-16 px font, grid 1..12 x 1..8 cells plus optional right/bottom remainder, pitch padding in {0,1,3,64,random}, synthetic logo of random height/width/alignment, random colour-mask layout and palette; 1 of 4: VgaTextConsole 1x1..132x60) placed as a window between pattern guards or against a PROT_NONE page, followed by 24-64 single Write/Fill/Scroll calls whose x,y,w,h,lines come from the classes {0,1,mid,last,last+1,2^31,2^32-1,2^32-last,remaining,remaining+-1,sum=2^32-1,sum=2^32,random}; the window is re-scrambled before every call and every byte is compared with the allowed-value set afterwards. non-trivial = case with at least one in-grid Write, one Fill whose extent was clipped at an edge and one Scroll that moved at least one line; distinct = fingerprint of the console spec and the argument list")
+	run.SetRule("case = one console (3 of 4: VesaFbConsole with depth in {8,15,16,24,32}, shipped or synthetic 8-16 px font, grid 1..12 x 1..8 cells plus optional right/bottom remainder, pitch padding in {0,1,3,64,random}, synthetic logo of random height/width/alignment, random colour-mask layout and palette; 1 of 4: VgaTextConsole 1x1..132x60; 1 console in 16 has a grid without any cell: narrower than a glyph, lower than logo + one glyph row, 0 columns or 0 rows in text mode; thorough: 1 framebuffer in 8 up to 40x25 cells) placed as a window between pattern guards or against a PROT_NONE page, followed by 24-64 single Write/Fill/Scroll calls whose x,y,w,h,lines come from the classes {0,1,mid,last,last+1,2^31,2^32-1,2^32-last,remaining,remaining+-1,sum=2^32-1,sum=2^32,random}; the window is re-scrambled before every call and every byte is compared with the allowed-value set afterwards. non-trivial = case with at least one in-grid Write, one Fill whose extent was clipped at an edge and one Scroll that moved at least one line; distinct = fingerprint of the console spec and the argument list")
 	run.Assume("port I/O (portWriteByteFn) is stubbed; the console is constructed in-package (fb slice set directly, loadDefaultPalette, SetLogo, SetFont) instead of through DriverInit/mapRegionFn; an 8-bit colour component is reduced to a mask of n bits by keeping its n most significant bits; glyph bitmaps are MSB-first")
 	run.Assume("colour masks lie in the low 24 bits of 24/32-bpp pixels and in the low bpp bits of 15/16-bpp pixels; bits of a pixel outside every colour mask are don't-care inside an addressed cell")
 
@@ -781,9 +781,9 @@ func TestVerifC19(t *testing.T) {
 				m.doFill(x, 11, 1, 2, 1, 0xffffffff, 7, 1)
 				m.doFill(x, 12, 2, 1, 0xffffffff, 1, 7, 1)
 				m.doFill(x, 13, uint32(g.cols), uint32(g.rows), uint32(1-g.cols), uint32(1-g.rows), 7, 2) // both sums = 2^32
-				m.doFill(x, 14, 1, uint32(g.rows), 0, 0xffffffff, 7, 2)                                  // empty width, wrapping height
-				m.doFill(x, 15, 0, 0, 0xffffffff, 0xffffffff, 7, 3)                                      // whole grid, no wrap (origin 1)
-				m.doFill(x, 16, 0xffffffff, 0xffffffff, 0xffffffff, 0xffffffff, 7, 3)                    // last cell
+				m.doFill(x, 14, 1, uint32(g.rows), 0, 0xffffffff, 7, 2)                                   // empty width, wrapping height
+				m.doFill(x, 15, 0, 0, 0xffffffff, 0xffffffff, 7, 3)                                       // whole grid, no wrap (origin 1)
+				m.doFill(x, 16, 0xffffffff, 0xffffffff, 0xffffffff, 0xffffffff, 7, 3)                     // last cell
 				m.doWrite(x, 17, 'A', 7, uint8(len(m.mdl.palette)-1), 1, 1)
 				m.doWrite(x, 18, 'A', uint8(len(m.mdl.palette)-1), 0, uint32(g.cols), uint32(g.rows))
 				m.doWrite(x, 19, 0xff, 1, 2, uint32(g.cols)+1, 1)
